@@ -1610,6 +1610,15 @@ pub fn run_scenario(t: &mut Tracer, prop: &str, thorough: bool, seed: u64, i: u6
     if std::env::var_os("VH_LIGHT").is_some() {
         fam = if i % 5 == 4 { "decode" } else { "miri" };
     }
+    // the boundary-size families are expensive to validate (65 000-symbol collections); the thorough tier, with
+    // twenty times the scenarios, runs them in every fourth of their slots (still five times as many as quick)
+    if thorough && matches!(fam, "bigfreq" | "bigalpha") && (i / 20) % 4 != 0 {
+        fam = match prop {
+            "C09" => "values",
+            "C14" => "perm",
+            _ => "invalid",
+        };
+    }
     let sc_seed = seed.wrapping_mul(0x1000_0000_01b3).wrapping_add(i).wrapping_add(hash_str(prop));
     t.reset(i, fam, seed);
     let mut rng = Rng::new(sc_seed);
